@@ -652,9 +652,141 @@ impl World {
         rep
     }
 
+    /// Canned probes (Op::Probe) on a private parse of what the document serialises to now.
+    fn probe(&mut self, doc: usize, which: usize) -> StepReport {
+        use xml_dom::{AttrMut, DocumentType, Element, NodeMut};
+        let mut rep = StepReport::default();
+        let ser = match self.last_ser.get(doc) {
+            Some(Some(s)) => s.clone(),
+            _ => {
+                rep.outcome = "skipped".into();
+                return rep;
+            }
+        };
+        let expanded = self.real.docs.get(doc).map(|d| d.expanded).unwrap_or(false);
+        let d = match guarded(|| parse_doc(&ser, expanded)) {
+            Ok(Ok(d)) => d,
+            _ => {
+                rep.outcome = "skipped".into();
+                return rep;
+            }
+        };
+        rep.executed = true;
+        rep.outcome = "ok".into();
+        // the first element (document order) that has an attribute through a DTD default, with that attribute
+        let find_default = |d: &XmlDocument| -> Option<(xml_dom::XmlElement, xml_dom::XmlAttr)> {
+            let mut stack: Vec<XmlNode> = d.as_node().child_nodes().iter().collect();
+            stack.reverse();
+            let mut guard = 0;
+            while let Some(n) = stack.pop() {
+                guard += 1;
+                if guard > 2000 {
+                    break;
+                }
+                if let XmlNode::Element(e) = &n {
+                    if let Some(m) = n.attributes() {
+                        for a in m.iter() {
+                            if a.as_node().id() == 0 {
+                                return Some((e.clone(), a));
+                            }
+                        }
+                    }
+                    let mut kids: Vec<XmlNode> = n.child_nodes().iter().collect();
+                    kids.reverse();
+                    stack.extend(kids);
+                }
+            }
+            None
+        };
+        match which {
+            0 | 1 | 2 => {
+                let (el, attr) = match guarded(|| find_default(&d)) {
+                    Ok(Some(x)) => x,
+                    _ => {
+                        rep.outcome = "skipped".into();
+                        rep.executed = false;
+                        return rep;
+                    }
+                };
+                let name = attr.name();
+                rep.probes.push("defaulted_attribute_object_probed");
+                match which {
+                    0 => {
+                        let r = guarded(|| match attr.as_node().first_child() {
+                            Some(piece) => el.append_child(piece).map(|_| ()),
+                            None => Ok(()),
+                        });
+                        if let Err(p) = r {
+                            rep.fails.push(Fail::new("C13", "panic", format!("append_child(value piece of the DTD-defaulted attribute {}) panicked: {}", name, p)));
+                        }
+                    }
+                    1 => {
+                        let r = guarded(|| attr.set_value("changed").map(|_| el.get_attribute(&name)));
+                        match r {
+                            Err(p) => rep.fails.push(Fail::new("C13", "panic", format!("set_value on the DTD-defaulted attribute {} panicked: {}", name, p))),
+                            Ok(Ok(v)) if v != "changed" => rep.fails.push(Fail::new(
+                                "C13",
+                                "effect",
+                                format!("set_value(\"changed\") on the DTD-defaulted attribute {} returned Ok, but the element still reports {:?}", name, v),
+                            )),
+                            _ => {}
+                        }
+                    }
+                    _ => {
+                        let before = guarded(|| d.doc_type().map(|t| format!("{}", t)).unwrap_or_default()).unwrap_or_default();
+                        let r = guarded(|| match attr.as_node().first_child() {
+                            Some(XmlNode::Text(t)) => {
+                                use xml_dom::CharacterDataMut;
+                                t.set_data("changed").map(|_| ())
+                            }
+                            _ => Ok(()),
+                        });
+                        let after = guarded(|| d.doc_type().map(|t| format!("{}", t)).unwrap_or_default()).unwrap_or_default();
+                        match r {
+                            Err(p) => rep.fails.push(Fail::new("C13", "panic", format!("set_data on the value piece of the DTD-defaulted attribute {} panicked: {}", name, p))),
+                            Ok(Ok(())) if before != after => rep.fails.push(Fail::new(
+                                "C13",
+                                "effect",
+                                format!("set_data on the value piece of one element's defaulted attribute {} rewrote the document type: {:?} -> {:?}", name, before, after),
+                            )),
+                            _ => {}
+                        }
+                    }
+                }
+            }
+            _ => {
+                let r = guarded(|| {
+                    let dt = match d.doc_type() {
+                        Some(t) => t,
+                        None => return None,
+                    };
+                    let n = dt.notations().item(0)?;
+                    let dtn = dt.as_node();
+                    let _ = d.remove_child(&dtn);
+                    drop(dtn);
+                    drop(dt);
+                    Some((n.next_sibling().map(|x| x.id()), n.previous_sibling().map(|x| x.id())))
+                });
+                match r {
+                    Err(p) => rep.fails.push(Fail::new("C12", "accessor-panic", format!("next_sibling()/previous_sibling() of a notation panicked after its document type was removed: {}", p))),
+                    Ok(None) => {
+                        rep.outcome = "skipped".into();
+                        rep.executed = false;
+                    }
+                    Ok(Some(_)) => rep.probes.push("notation_navigated_after_doctype_removal"),
+                }
+            }
+        }
+        rep.digest = self.digest();
+        rep
+    }
+
     pub fn exec_step(&mut self, step: &Step) -> StepReport {
         if let Op::Restart { doc } = &step.op {
             return self.restart(*doc);
+        }
+        if let Op::Probe { doc, which } = &step.op {
+            return self.probe(*doc, *which);
         }
         let mut rep = StepReport::default();
         let plan = self.model.plan(step);
@@ -1687,6 +1819,7 @@ impl World {
             Op::Checkpoint { .. } => {}
             Op::Restart { .. } => {}
             Op::DtMap { .. } => {}
+            Op::Probe { .. } => {}
             Op::Reparse { doc } => {
                 // reading the maps of the document type twice gives the same answer (no edit in between)
                 let live = self.real.docs[*doc].dom.clone();
